@@ -49,6 +49,8 @@ import (
 	cbg "github.com/whyrusleeping/cbor-gen"
 )
 
+var dbg = os.Getenv("C12_DEBUG")
+
 const (
 	nodeActor    = gpbft.ActorID(4242)
 	purgeHorizon = 6 // host.go keeps 5 instances behind the finalized one in the WAL
@@ -207,9 +209,8 @@ type stack struct {
 
 	// request gate: a Broadcast that may raise the filter's instance is issued
 	// exclusively (see the soundness note at checkOrder).
-	gate      sync.RWMutex
-	maxIssued atomic.Int64
-	cur       atomic.Pointer[f3.F3]
+	gate sync.RWMutex
+	cur  atomic.Pointer[lifeHandle]
 	life      atomic.Int64
 	withhold  atomic.Bool
 	reqWG     sync.WaitGroup
@@ -228,7 +229,7 @@ type stack struct {
 	tainted     bool
 
 	// counters (atomic)
-	nObserved, nSigned, nDecodeErr, nWALReads, nPurgeExcused, nForeign atomic.Int64
+	nObserved, nSigned, nDecodeErr, nWALReads, nPurgeExcused, nPurgeExcusedImg, nForeign atomic.Int64
 }
 
 func detRand(seed int64) *rand.Rand { return rand.New(rand.NewSource(seed)) }
@@ -240,7 +241,6 @@ func (d detReader) Read(p []byte) (int, error) { return d.r.Read(p) }
 func newStack(run *vkit.Run, caseIdx int, id string, depth int, seed int64, root string, key crypto.PrivKey, compress bool) (*stack, error) {
 	s := &stack{run: run, caseIdx: caseIdx, id: id, depth: depth, seed: seed, rng: detRand(seed),
 		walSeen: map[string]bool{}, futureBump: map[uint64]bool{}, templates: map[slotKey]*tmpl{}, key: key}
-	s.maxIssued.Store(-1)
 	ctx, cancel := context.WithCancel(context.Background())
 	ctx, s.clk = clock.WithMockClock(ctx)
 	s.ctx, s.cancel = ctx, cancel
@@ -386,7 +386,7 @@ func (s *stack) observe(pg *gpbft.PartialGMessage, seq uint64) {
 	known := s.walSeen[w.id()]
 	s.mu.Unlock()
 	s.nObserved.Add(1)
-	if os.Getenv("C12_DEBUG") == "3" {
+	if dbg == "3" {
 		fmt.Printf("dbg3 %s observed i=%d r=%d %s at %s\n", s.id, w.Inst, w.Round, w.Phase, time.Now().Format("15:04:05.000"))
 	}
 	if known {
@@ -421,6 +421,9 @@ func (s *stack) observe(pg *gpbft.PartialGMessage, seq uint64) {
 	}
 	if horizon >= w.Inst+purgeHorizon {
 		s.nPurgeExcused.Add(1)
+		if dbg != "" {
+			fmt.Printf("dbg purge-excused at observation: stack %s msg %+v horizon=%d walfiles=%v\n", s.id, w, horizon, img.names)
+		}
 		return
 	}
 	s.run.Violation(fmt.Sprintf("wire: a %s message observed on the node's pubsub topic is absent from the WAL directory read after the observation (publish is not preceded by a durable log append)", w.Phase),
@@ -514,6 +517,8 @@ type lifeHandle struct {
 	cancel context.CancelFunc
 	wg     sync.WaitGroup
 	idx    int
+	// highest instance a request was issued for on THIS incarnation (gate)
+	maxIssued atomic.Int64
 }
 
 func (s *stack) startLife() (*lifeHandle, error) {
@@ -541,21 +546,28 @@ func (s *stack) startLife() (*lifeHandle, error) {
 	if !ok {
 		s.run.Count("steps_inconclusive_observer_not_connected", 1)
 	}
-	if os.Getenv("C12_DEBUG") != "" {
+	if dbg != "" {
 		fmt.Printf("dbg %s life %d: observer known=%v nodePeers=%v obsPeers=%v observed=%d\n", s.id, idx, ok, s.nodePS.ListPeers(topic), s.obsPS.ListPeers(topic), s.nObserved.Load())
 	}
-	s.maxIssued.Store(-1)
-	if os.Getenv("C12_DEBUG") == "3" {
+	if dbg == "3" {
 		fmt.Printf("dbg3 %s life %d starting at %s\n", s.id, idx, time.Now().Format("15:04:05.000"))
 	}
 	if err := f.Start(s.ctx); err != nil {
 		return nil, err
 	}
-	if os.Getenv("C12_DEBUG") == "3" {
+	if dbg == "3" {
 		fmt.Printf("dbg3 %s life %d started at %s\n", s.id, idx, time.Now().Format("15:04:05.000"))
 	}
-	for i := 0; i < 2000 && !f.IsRunning(); i++ {
+	for i := 0; i < 500 && !f.IsRunning(); i++ {
 		time.Sleep(time.Millisecond)
+	}
+	// A null tipset at the bootstrap epoch makes F3 wait for the next one: give
+	// it EC time (bounded).
+	for tries := 0; tries < 8 && !f.IsRunning(); tries++ {
+		s.clk.Add(s.mfst.EC.Period)
+		for i := 0; i < 200 && !f.IsRunning(); i++ {
+			time.Sleep(time.Millisecond)
+		}
 	}
 	if !f.IsRunning() {
 		_ = f.Stop(s.ctx)
@@ -563,11 +575,12 @@ func (s *stack) startLife() (*lifeHandle, error) {
 	}
 	lctx, cancel := context.WithCancel(s.ctx)
 	h := &lifeHandle{f: f, cancel: cancel, idx: idx}
-	s.cur.Store(f)
+	h.maxIssued.Store(-1)
+	s.cur.Store(h)
 	h.wg.Add(1)
 	go func() {
 		defer h.wg.Done()
-		s.signLoop(lctx, f, idx)
+		s.signLoop(lctx, h)
 	}()
 	return h, nil
 }
@@ -576,7 +589,7 @@ var tStart, tStop, tTick, tOther atomic.Int64
 
 func (s *stack) stopLife(h *lifeHandle) {
 	defer func(t0 time.Time) { tStop.Add(int64(time.Since(t0))) }(time.Now())
-	if os.Getenv("C12_DEBUG") != "" {
+	if dbg != "" {
 		fmt.Printf("dbg %s life %d stopping: progress=%+v observed=%d nodePeers=%v obsPeers=%v\n", s.id, h.idx, h.f.Progress(), s.nObserved.Load(), s.nodePS.ListPeers(s.mfst.PubSubTopic()), s.obsPS.ListPeers(s.mfst.PubSubTopic()))
 	}
 	err := h.f.Stop(s.ctx)
@@ -595,7 +608,13 @@ func (s *stack) stopLife(h *lifeHandle) {
 // ---- requests --------------------------------------------------------------------------------
 
 // broadcast issues one request through the public API under the gate.
-func (s *stack) broadcast(f *f3.F3, sb *gpbft.SignatureBuilder, sig, vrf []byte, kind string, conflicting bool) {
+//
+// Gate: a request that may raise the filter's newest instance (the first
+// request of an incarnation, or one for a higher instance than any issued on
+// this incarnation before) is issued while no other harness request - on this
+// or on an earlier incarnation - is in flight.
+func (s *stack) broadcast(h *lifeHandle, sb *gpbft.SignatureBuilder, sig, vrf []byte, kind string, conflicting bool) {
+	f := h.f
 	inst := int64(sb.Payload.Instance)
 	if kind != "honest" {
 		s.mu.Lock()
@@ -604,16 +623,16 @@ func (s *stack) broadcast(f *f3.F3, sb *gpbft.SignatureBuilder, sig, vrf []byte,
 		s.mu.Unlock()
 	}
 	s.gate.RLock()
-	if inst > s.maxIssued.Load() {
+	if inst > h.maxIssued.Load() {
 		s.gate.RUnlock()
 		s.gate.Lock()
-		if inst > s.maxIssued.Load() {
-			s.maxIssued.Store(inst)
+		if inst > h.maxIssued.Load() {
+			h.maxIssued.Store(inst)
 		}
 		t0 := time.Now()
 		f.Broadcast(s.ctx, sb, sig, vrf)
 		s.gate.Unlock()
-		if d := time.Since(t0); os.Getenv("C12_DEBUG") == "3" && d > 20*time.Millisecond {
+		if d := time.Since(t0); dbg == "3" && d > 20*time.Millisecond {
 			fmt.Printf("dbg3 slow exclusive Broadcast %s %v\n", kind, d)
 		}
 		return
@@ -621,7 +640,7 @@ func (s *stack) broadcast(f *f3.F3, sb *gpbft.SignatureBuilder, sig, vrf []byte,
 	t0 := time.Now()
 	f.Broadcast(s.ctx, sb, sig, vrf)
 	s.gate.RUnlock()
-	if d := time.Since(t0); os.Getenv("C12_DEBUG") == "3" && d > 20*time.Millisecond {
+	if d := time.Since(t0); dbg == "3" && d > 20*time.Millisecond {
 		fmt.Printf("dbg3 slow Broadcast %s %v\n", kind, d)
 	}
 }
@@ -733,7 +752,8 @@ func (s *stack) future(t *tmpl) (*gpbft.SignatureBuilder, []byte, []byte, bool) 
 
 // signLoop is the signing client of one lifetime: it signs what the node asks
 // for, and around that slips in conflicting requests for the same slot.
-func (s *stack) signLoop(ctx context.Context, f *f3.F3, life int) {
+func (s *stack) signLoop(ctx context.Context, h *lifeHandle) {
+	f, life := h.f, h.idx
 	r := detRand(s.seed ^ int64(life)*7919)
 	for {
 		var mb *gpbft.MessageBuilder
@@ -742,7 +762,7 @@ func (s *stack) signLoop(ctx context.Context, f *f3.F3, life int) {
 		case <-ctx.Done():
 			return
 		}
-		if os.Getenv("C12_DEBUG") == "3" {
+		if dbg == "3" {
 			fmt.Printf("dbg3 %s life %d builder i=%d r=%d %s at %s\n", s.id, life, mb.Payload.Instance, mb.Payload.Round, mb.Payload.Phase, time.Now().Format("15:04:05.000"))
 		}
 		for s.withhold.Load() && ctx.Err() == nil {
@@ -762,18 +782,18 @@ func (s *stack) signLoop(ctx context.Context, f *f3.F3, life int) {
 		if roll < 6 {
 			// the conflicting request gets there first
 			if vsb, vsig, vvrf, ok := s.variant(t, r); ok {
-				s.broadcast(f, vsb, vsig, vvrf, "conflict-before", true)
+				s.broadcast(h, vsb, vsig, vvrf, "conflict-before", true)
 			}
 		}
 		s.remember(sb, sig, vrf)
-		s.broadcast(f, sb, sig, vrf, "honest", false)
+		s.broadcast(h, sb, sig, vrf, "honest", false)
 		switch {
 		case roll >= 6 && roll < 40:
 			if vsb, vsig, vvrf, ok := s.variant(t, r); ok {
-				s.broadcast(f, vsb, vsig, vvrf, "conflict-after", true)
+				s.broadcast(h, vsb, vsig, vvrf, "conflict-after", true)
 			}
 		case roll >= 40 && roll < 50:
-			s.broadcast(f, sb, sig, vrf, "duplicate", false)
+			s.broadcast(h, sb, sig, vrf, "duplicate", false)
 		}
 	}
 }
@@ -786,8 +806,8 @@ func (s *stack) burst(seed int64, goroutines, perG int, target *uint64) {
 			defer s.reqWG.Done()
 			r := detRand(seed + int64(g)*104729)
 			for k := 0; k < perG; k++ {
-				f := s.cur.Load()
-				if f == nil {
+				h := s.cur.Load()
+				if h == nil {
 					return
 				}
 				s.mu.Lock()
@@ -826,7 +846,7 @@ func (s *stack) burst(seed int64, goroutines, perG int, target *uint64) {
 						if older {
 							kind = "conflict-older-instance"
 						}
-						s.broadcast(f, vsb, vsig, vvrf, kind, true)
+						s.broadcast(h, vsb, vsig, vvrf, kind, true)
 					}
 				default:
 					kind := "duplicate"
@@ -834,7 +854,7 @@ func (s *stack) burst(seed int64, goroutines, perG int, target *uint64) {
 						kind = "replay-older-instance"
 					}
 					sb := t.sb
-					s.broadcast(f, &sb, t.sig, t.vrf, kind, false)
+					s.broadcast(h, &sb, t.sig, t.vrf, kind, false)
 				}
 				if r.Intn(3) == 0 {
 					runtime.Gosched()
@@ -930,11 +950,14 @@ func (s *stack) snapshot(id string, inflight bool) *forkSnap {
 	if !tainted {
 		for i := range sn.prefix {
 			w := &sn.prefix[i]
-			if inImg[w.id()] {
+			// Inherited entries were checked when this stack itself was forked
+			// (and its image was cut so as to keep them, or they were already
+			// purged then); only what this stack's own node published is due.
+			if !w.Own || inImg[w.id()] {
 				continue
 			}
 			if max(imgMax, wireMax) >= w.Inst+purgeHorizon {
-				s.nPurgeExcused.Add(1)
+				s.nPurgeExcusedImg.Add(1)
 				continue
 			}
 			s.run.Violation(fmt.Sprintf("crash image: a %s message already observed on the wire is absent from the WAL directory copied afterwards (a crash here forgets a published message)", w.Phase),
@@ -1204,7 +1227,7 @@ func (s *stack) futureAttack(h *lifeHandle, st *lineageStats) {
 	s.futureBump[sb.Payload.Instance] = true
 	s.mu.Unlock()
 	atomic.AddInt64(&st.futureBumps, 1)
-	s.broadcast(h.f, sb, sig, vrf, "future-instance", false)
+	s.broadcast(h, sb, sig, vrf, "future-instance", false)
 	for i := 0; i < 6+s.rng.Intn(6); i++ {
 		s.clk.Add(time.Duration(3000+s.rng.Intn(3000)) * time.Millisecond)
 		time.Sleep(2 * time.Millisecond)
@@ -1264,7 +1287,7 @@ func (s *stack) checkWire() (equivPairs, inversions, tolerated int) {
 	for i := range wire {
 		w := &wire[i]
 		if f, ok := first[w.slot()]; ok {
-			if f.Sig != w.Sig {
+			if f.Sig != w.Sig && w.Own { // pairs inside the inherited prefix were judged in the parent
 				equivPairs++
 				across := "within one lifetime"
 				if !f.Own && w.Own {
@@ -1301,14 +1324,15 @@ func (s *stack) checkWire() (equivPairs, inversions, tolerated int) {
 			}
 			// older instance after a newer one
 			excused := false
-			if w.Own {
-				for j := w.Inst + 1; j <= maxInst; j++ {
-					if future[j] && !used[j] {
-						used[j] = true
-						excused = true
-						break
-					}
+			for j := w.Inst + 1; j <= maxInst; j++ {
+				if future[j] && !used[j] {
+					used[j] = true
+					excused = true
+					break
 				}
+			}
+			if !w.Own {
+				continue // inside the inherited prefix: judged in the parent
 			}
 			if excused {
 				tolerated++
@@ -1379,7 +1403,8 @@ func (s *stack) tally(agg *sync.Map) {
 		add("requests_kind_"+k, v)
 	}
 	add("wal_reads_at_observation", s.nWALReads.Load())
-	add("wal_miss_excused_by_purge_horizon", s.nPurgeExcused.Load())
+	add("wal_miss_at_observation_excused_by_purge_horizon", s.nPurgeExcused.Load())
+	add("wal_miss_in_crash_image_excused_by_purge_horizon", s.nPurgeExcusedImg.Load())
 	add("observer_decode_or_read_errors", s.nDecodeErr.Load())
 	add("observer_foreign_messages", s.nForeign.Load())
 }
@@ -1407,9 +1432,9 @@ func runNode(t *testing.T, part string, small bool) {
 	psutil.ManifestMessageIdFn = pubsub.DefaultMsgIdFn
 
 	run := vkit.New("C12", part, "fault_enumeration")
-	cfg := nodeCfg{cases: run.N(6, 300), lifetimes: 7, stepsMin: 12, stepsMax: 40, forksPerRun: 3}
+	cfg := nodeCfg{cases: run.N(6, 240), lifetimes: 7, stepsMin: 12, stepsMax: 40, forksPerRun: 3}
 	if small {
-		cfg = nodeCfg{cases: run.N(1, 24), lifetimes: 3, stepsMin: 8, stepsMax: 20, forksPerRun: 1}
+		cfg = nodeCfg{cases: run.N(1, 12), lifetimes: 2, stepsMin: 10, stepsMax: 20, forksPerRun: 1}
 	}
 	run.SetRule("each case is one node identity: a real f3.F3 (mocknet + gossipsub + FakeEC + mock clock + map datastore + real WAL directory) with the only key of the power table, driven through several lifetimes (Stop / New+Start over the same datastore and WAL, clock and EC head moved while down) by a seeded script of clock advances, signature withholding (rebroadcast storms), bursts of conflicting / duplicate / older-instance requests from several goroutines through F3.Broadcast, a final future-instance request, and crash forks (wire log, datastore and WAL directory copied at an arbitrary instant, tail optionally cut at a random byte no earlier than the last published entry) each run as a new node on the copy and attacked on the slots already used; an observer pubsub peer records the wire; distinct = (case, stack, lifetime) with at least one conflicting request kept off the wire")
 	run.Assume("no storage errors are injected; no other node uses the identity",
@@ -1453,14 +1478,14 @@ func runNode(t *testing.T, part string, small bool) {
 		}
 		distinctMu.Unlock()
 		run.Sample(map[string]any{"case": s.caseIdx, "stack": s.id, "wire_len": nw, "lifetimes": lifetimes, "forks_taken": len(snaps)})
-		if os.Getenv("C12_DEBUG") != "" {
+		if dbg != "" {
 			s.mu.Lock()
 			fmt.Printf("--- stack %s prefix=%d\n", s.id, s.prefixLen)
 			for _, w := range s.wire {
 				fmt.Printf("  obs=%d own=%v life=%d seq=%d i=%d r=%d %s sig=%s v=%s\n", w.Obs, w.Own, w.Life, w.Seqno%100000, w.Inst, w.Round, w.Phase, w.Sig[:8], w.VKey)
 			}
 			for _, r := range s.requests {
-				if os.Getenv("C12_DEBUG") != "2" {
+				if dbg != "2" {
 					break
 				}
 				fmt.Printf("  req %s life=%d i=%d r=%d %s sig=%s at=%d onwire=%v\n", r.Kind, r.Life, r.Inst, r.Round, r.Phase, r.Sig[:8], r.WireLen, onWire[r.Sig])
@@ -1470,7 +1495,7 @@ func runNode(t *testing.T, part string, small bool) {
 		return snaps
 	}
 
-	workers := max(2, min(runtime.GOMAXPROCS(0), 8))
+	workers := max(2, min(runtime.GOMAXPROCS(0), 12))
 	vkit.Parallel(cfg.cases, workers, func(i int) {
 		if run.Case >= 0 && int64(i) != run.Case {
 			return
@@ -1533,7 +1558,11 @@ func runNode(t *testing.T, part string, small bool) {
 	run.Count("wire_older_instance_tolerated_inflight_rebroadcast", tol)
 
 	if run.Case < 0 {
-		if run.Counter("wire_messages_observed") < int64(20*cfg.cases) ||
+		floor := int64(10 * cfg.cases)
+		if small {
+			floor = int64(3 * cfg.cases)
+		}
+		if run.Counter("wire_messages_observed") < floor ||
 			run.Counter("conflicting_requests_suppressed") < int64(cfg.cases) ||
 			st.restarts < int64(cfg.cases) || st.forks < 1 {
 			run.Inconclusive("too-few-events")
